@@ -76,7 +76,7 @@ def run(name, prep, checks, log):
         shutil.copytree("/repo/PyXAB", os.path.join(tmp, "PyXAB"), ignore=shutil.ignore_patterns("__pycache__"))
         if not prep(tmp):
             log("%-40s PATCH-FAILED" % name); return
-        r = subprocess.run(["/venv/bin/python", "-m", "pytest", "-q", "-x", "-p", "no:cacheprovider", "PyXAB/tests"], cwd=tmp, capture_output=True, text=True, env=dict(os.environ, PYTHONPATH=tmp))
+        r = subprocess.run(["/venv/bin/python", "-m", "pytest", "-q", "-x", "-p", "no:cacheprovider", "--timeout=60", "PyXAB/tests"], cwd=tmp, capture_output=True, text=True, env=dict(os.environ, PYTHONPATH=tmp))
         tests = "tests-pass" if r.returncode == 0 else "TESTS-FAIL"
         res = []
         for c in checks:
